@@ -1346,6 +1346,12 @@ int _vnadata_load_touchstone(vnadata_internal_t *vdip, FILE *fp,
 			tps.tps_filename, tps.tps_line, tps.tps_ports);
 		    goto out;
 		}
+		if (!(tps.u.tps_double > 0.0) || isinf(tps.u.tps_double)) {
+		    _vnadata_error(vdip, VNAERR_SYNTAX, "%s (line %d) error: "
+			    "[Reference] values must be positive",
+			tps.tps_filename, tps.tps_line);
+		    goto out;
+		}
 		reference[i] = tps.u.tps_double;
 		if (next_token(&tps, F_NONE) == -1) {
 		    goto out;
